@@ -235,6 +235,23 @@ pub fn variants<'a, F: Elem>(ev: &'a Value, big: bool) -> Vec<Variant<'a, F>> {
             let val = num_from_json(&ev["v"], big);
             var!("from_bigint", |r| match F::p_from_bigint(&val).expect("prime field") { Some(x) => { r[d] = x; json!("some") } None => json!("none") });
         }
+        "from_str" => {
+            // the numeral is written with num-bigint, independently of the code under test
+            let d = idx(ev, "d");
+            let mag = num_from_json(&ev["mag"], big);
+            let neg = ev["neg"].as_bool().unwrap();
+            let s1 = format!("{}{}", if neg { "-" } else { "" }, mag);
+            let s2 = s1.clone();
+            var!("from_str", |r| { r[d] = F::p_from_str(&s1, false).expect("prime field").map_err(|_| "from_str failed").unwrap(); Value::Null });
+            var!("str_parse", |r| { r[d] = F::p_from_str(&s2, true).expect("prime field").map_err(|_| "parse failed").unwrap(); Value::Null });
+        }
+        "to_str" => {
+            let d = idx(ev, "d");
+            // the numeral must be the canonical one (no sign, no leading zeros): parse it back independently and compare the text
+            let chk = move |s: String| -> Value { let v = BigUint::parse_bytes(s.as_bytes(), 10).unwrap_or_else(|| panic!("not a decimal numeral: {s}")); assert_eq!(v.to_string(), s, "non-canonical numeral"); num_to_json(&v, big) };
+            var!("to_string", |r| chk(r[d].to_string()));
+            var!("format_display", |r| chk(format!("{}", r[d])));
+        }
         "into_bigint" => {
             let d = idx(ev, "d");
             var!("into_bigint", |r| num_to_json(&r[d].p_into_bigint().expect("prime field"), big));
@@ -571,7 +588,12 @@ pub fn record<F: Elem>(cfg: &str, seed: u64, n: usize, out: &mut dyn std::io::Wr
                 let v = match rng.below(8) { 0 => p.clone(), 1 => &p + &one, 2 => &p - &one, 3 => &top - &one, 4 => BigUint::from(0u32), 5 => rng.biguint_below(&p), _ => rng.biguint_below(&top) };
                 json!({"op": "from_bigint", "d": d + 1, "v": num_to_json(&v, true)})
             },
-            _ => if !is_prime { continue } else { json!({"op": "into_bigint", "d": d + 1}) },
+            _ => if !is_prime { continue } else { match rng.below(4) {
+                0 => json!({"op": "into_bigint", "d": d + 1}),
+                1 => json!({"op": "to_str", "d": d + 1}),
+                _ => { use num_traits::One; let one = BigUint::one(); let top = &one << (64 * nl + 70);
+                       let mag = match rng.below(8) { 0 => BigUint::from(0u32), 1 => p.clone(), 2 => &p - &one, 3 => &p + &one, 4 => &p * 3u32 + 5u32, 5 => BigUint::from(rng.below(1000)), 6 => rng.biguint_below(&p), _ => rng.biguint_below(&top) };
+                       json!({"op": "from_str", "d": d + 1, "neg": rng.below(3) == 0, "mag": num_to_json(&mag, true)}) } } },
         };
         let op = ev["op"].as_str().unwrap().to_string();
         rep.op(&op);
@@ -605,7 +627,7 @@ pub fn record<F: Elem>(cfg: &str, seed: u64, n: usize, out: &mut dyn std::io::Wr
             let named = ev.get("d").and_then(|x| x.as_u64()) == Some(i as u64 + 1)
                 || ev.get("ds").and_then(|x| x.as_array()).map_or(false, |a| a.iter().any(|x| x.as_u64() == Some(i as u64 + 1)));
             let changed = regs[i] != before[i] || regs[i].raw_json() != before[i].raw_json();
-            let is_query = ["is_zero", "is_one", "eq", "cmp", "legendre", "into_bigint", "norm"].contains(&op.as_str());
+            let is_query = ["is_zero", "is_one", "eq", "cmp", "legendre", "into_bigint", "norm", "to_str"].contains(&op.as_str());
             if changed || (named && !is_query && !(op == "sqrt" && ret == json!("none"))) {
                 w.push(json!([i + 1, regs[i].raw_json()]));
             }
